@@ -1018,6 +1018,67 @@ fn encode_buffer(
     Ok(StunPacket::new(buffer, size))
 }
 
+#[cfg(feature = "verif-hooks")]
+impl StunClient {
+    /// Read-only copy of the whole client state, for verification harnesses.
+    pub fn verif_snapshot(&self) -> crate::verif_hooks::VerifSnapshot {
+        use crate::verif_hooks::{VerifMechanism, VerifRtt, VerifSnapshot, VerifTransaction};
+        let transactions = self
+            .transactions
+            .iter()
+            .map(|(id, t)| VerifTransaction {
+                id: *id,
+                instant: t.instant,
+                packet: t.packet.to_vec(),
+                rtos: t.rtos.verif_state(),
+            })
+            .collect();
+        let rtt = match &self.rtt {
+            StunRttCalcuator::Reliable(timeout) => VerifRtt::Reliable(*timeout),
+            StunRttCalcuator::Unreliable(handler) => {
+                let (rto, srtt, rttvar, granularity, configured_rto) = handler.rtt.verif_state();
+                VerifRtt::Unreliable {
+                    rto,
+                    srtt,
+                    rttvar,
+                    granularity,
+                    configured_rto,
+                    rm: handler.rm,
+                    rc: handler.rc,
+                    last_request: handler.last_request,
+                }
+            }
+        };
+        let mechanism = match &self.mechanism {
+            None => VerifMechanism::None,
+            Some(CredentialMechanismClient::ShortTerm(m)) => {
+                let (integrity, violated) = m.verif_state();
+                VerifMechanism::ShortTerm {
+                    integrity,
+                    violated,
+                }
+            }
+            Some(CredentialMechanismClient::LongTerm(m)) => {
+                let (state, params, violated) = m.verif_state();
+                VerifMechanism::LongTerm {
+                    state,
+                    params,
+                    violated,
+                }
+            }
+        };
+        VerifSnapshot {
+            transactions,
+            timeouts: self.timeouts.verif_entries(),
+            rtt,
+            mechanism,
+            use_fingerprint: self.use_fingerprint,
+            max_transactions: self.max_transactions,
+            pending_events: self.transaction_events.verif_pending(),
+        }
+    }
+}
+
 #[cfg(test)]
 mod stun_client_tests {
     use super::*;
